@@ -165,7 +165,7 @@ def c05_custom(pid, tier, seed, total, chk):
     """C05: generated valid programs x values, monitored by the suite compiled into them."""
     crates = 1 if tier == "quick" else 6
     ndefs = 140 if tier == "quick" else 260
-    values = 150 if tier == "quick" else 1500
+    values = 400 if tier == "quick" else 3000
     programs = 0
     for k in range(crates):
         g = gen.Gen(seed * 1000 + k)
@@ -184,7 +184,7 @@ def c05_custom(pid, tier, seed, total, chk):
 def c13_generated(pid, tier, seed, total, chk):
     crates = 1 if tier == "quick" else 4
     ndefs = 140 if tier == "quick" else 260
-    values = 200 if tier == "quick" else 2000
+    values = 500 if tier == "quick" else 4000
     programs = 0
     for k in range(crates):
         g = gen.Gen(seed * 1000 + 500 + k)
